@@ -57,9 +57,9 @@ func c05Probe(ins string) func(w *mintops.W) {
 }
 
 func c05Specs(quick bool) []*bfs.Spec {
-	d := 4
+	d := 5
 	if !quick {
-		d = 6
+		d = 7
 	}
 	sfx := map[bool]string{true: "-q", false: ""}[quick]
 	specs := []*bfs.Spec{
